@@ -9,6 +9,9 @@ CLAIMED = {
  "C01": ("lock/representation invariants + whole-view postconditions on allocator.IPAllocator, VCs from the typed Go AST discharged by z3/cvc5",
          "Deductive proof, per function and for all inputs/histories/schedules of lock-protected calls, that the bitmap allocator's maps stay mutually inverse (no prefix index has two holders), indices stay below the pool size and a repeated Allocate returns the same index and changes nothing. Other pool implementations are listed as undecided in the evidence.",
          "Trusted: the VC generator and SMT encoding, solvers, assumed math/big and Go-map contracts, monitor model for sync.RWMutex; IP byte arithmetic only under frame contracts.", "DESIGN.md §5 C01"),
+ "C02": ("ownership lock invariants (free list pairwise distinct, disjoint from bindings, bindings injective, quarantine) and whole-view postconditions on the DHCPv4 Pool and the DHCPv6 AddressPool/PrefixPool; ACK-gate and OFFER-source postconditions on the DHCPv4 handlers through ghost results of the pool queries; RELEASE/DECLINE routing postconditions (ghost call counters) on the DHCPv6 server; net.IP equality as an uninterpreted extensional class key; VCs discharged by z3/cvc5",
+         "Deductive proof, per function and for all inputs / pool states, that the pools never hand out a value another client holds, keep every other binding untouched on release, return a released value to the free list and never a declined one; that DHCPv4 REQUEST is acknowledged only for the client's own lease address or the address the pool holds for its MAC, and DISCOVER offers only such an address; that DHCPv6 DECLINE quarantines and RELEASE releases. Three genuine defects (address hijack by REQUEST, declined v4 address re-offered, v6 DECLINE handled as RELEASE) were found by these obligations, replayed on the real code and repaired. The whole-history clauses (lease table vs pool agreement across two mutexes, expiry and virtual time, v6 lifetimes, relay/circuit-id takeover, pool members inside the network) are NOT decided and are listed as such in the evidence.",
+         "Trusted: VC generator, solvers, ip_key model of net.IP.Equal/String, dhcpv4 library constructors assumed effect-free, trusted frames for kernel-map writers / socket / external allocator, monitor model per mutex (no cross-mutex invariants), pool invariants assumed established by the constructors.", "DESIGN.md §7 C02"),
  "C04": ("gate preconditions at every call site of the granting operations + provenance/inertness postconditions (ghost verdict of the RADIUS oracle), VCs from the typed Go AST discharged by z3/cvc5",
          "Deductive proof for the PPPoE server.go frame handlers: SetState(IPCP/Established), client-address assignment and IPCP handling are reachable only with session.Authenticated; Authenticated becomes true only from the RADIUS verdict; frames/PADT from a MAC that does not own the session leave it unchanged. Three genuine defects found by these obligations were repaired (fix: commits).",
          "Trusted: VC generator, solvers, trusted contract for radius.Client.Authenticate (oracle) and rawSocket.send, monitor model for Session.mu/SessionManager.mu; CHAP/Authenticator path not under contract.", "DESIGN.md §5 C04"),
